@@ -39,7 +39,8 @@ package kernel
 // Explicit panics ("should never be here", final.Number+1 != cache.Number) are graph-consistency assertions: `maypanic`.
 //@ func (chain *Chain) prepareAnnouncement
 //@   property C24
-//@   trustpre Gap asFinal IsPledging determineBestRound updateEmptyHeadRoundAndPersist startNewRoundAndPersist -- RoundOK / round copies: C19, Pledging: C10, graph + store representation: C20
+//@   trustpre IsPledging -- Pledging: C10
+//@   trustpre quiet: Gap asFinal determineBestRound updateEmptyHeadRoundAndPersist startNewRoundAndPersist -- graph + store + membership representation (NodeRep, AllBooted, MirrorOK ...): C20/C10; not needed here, not added to the context
 //@   requires CosiChainOK(chain) && AggsShape(chain) && !isnil(chain.persistStore)
 //@   requires m != nil && m.Snapshot != nil && m.data != nil
 //@   maypanic
